@@ -113,19 +113,21 @@ def chunks(seq, size=None, dfmt="f", byte_order=None, padval=0.):
   if size is None:
     size = chunks.size
   chunk = array.array(dfmt, xrange(size))
+  # array.tostring was renamed to array.tobytes (and removed in Python 3.9)
+  tobytes = chunk.tobytes if hasattr(chunk, "tobytes") else chunk.tostring
   idx = 0
 
   for el in seq:
     chunk[idx] = el
     idx += 1
     if idx == size:
-      yield chunk.tostring()
+      yield tobytes()
       idx = 0
 
   if idx != 0:
     for idx in xrange(idx, size):
       chunk[idx] = padval
-    yield chunk.tostring()
+    yield tobytes()
 
 
 class RecStream(Stream):
